@@ -870,6 +870,8 @@ class OptHistory(Base):
         self.init = np.array(solver.problem.shr_domains_lst).copy()
 
     def solve_one_exit(self, args, sol):
+        if self.solver is None:
+            return  # not an optimisation run
         self.c("solve_one_calls")
         if sol is None:
             return
@@ -884,6 +886,8 @@ class OptHistory(Base):
 
     def on_reset(self, args):
         s = self.solver
+        if s is None:
+            return
         self.c("resets")
         if self.state != "found":
             self.fail("C03", "reset_without_incumbent", "reset() called in state %s" % self.state)
@@ -893,12 +897,18 @@ class OptHistory(Base):
         if not np.array_equal(s.shr_domains_stack[0], self.init):
             self.fail("C03", "reset_does_not_restore_initial_domains", "%r vs initial %r" % (
                 s.shr_domains_stack[0].tolist(), self.init.tolist()))
-        if not np.all(s.triggered_propagators) or not np.all(s.not_entailed_propagators_stack[0]):
-            self.fail("C03", "reset_leaves_queue_or_flags", "queue %r flags %r" % (
-                s.triggered_propagators.tolist(), s.not_entailed_propagators_stack[0].tolist()))
+        if not np.all(s.triggered_propagators):
+            self.fail("C03", "reset_leaves_queue", "queue %r after reset" % (s.triggered_propagators.tolist(),))
+        if not np.all(s.not_entailed_propagators_stack[0]):
+            msg = "constraints %r are still disabled at level 0 after the restart of the optimisation" % (
+                [int(i) for i in np.nonzero(~s.not_entailed_propagators_stack[0])[0]],)
+            self.fail("C03", "reset_leaves_constraints_disabled", msg)
+            self.fail("C07", "constraint_not_re_enabled_after_restart", msg)
 
     def on_tighten(self, name, args):
         s = self.solver
+        if s is None:
+            return
         self.c("tightenings")
         if self.state != "reset":
             self.fail("C03", "tighten_without_reset", "%s called in state %s" % (name, self.state))
